@@ -936,17 +936,18 @@ Qed.
 (* ====================================================================================================== *)
 Definition RT (s s' : st) : Prop := TInv s -> TInv s'.
 
-Lemma tinv_walk : walk_hyps RT (fun s c => c < nscope s) (fun _ _ _ => True) (fun _ _ => False).
+Lemma tinv_walk : walk_hyps RT (ok_always (fun s c => c < nscope s) (fun _ _ _ => True) (fun _ _ => False)).
 Proof.
   constructor; unfold RT.
   - auto.
   - auto.
   - intros a b F. now apply tinv_frame.
+  - exact I.
   - intros s d sh. apply new_scope_tinv.
-  - intros s d sh t T. apply scope_enter_tinv; [cbn; lia|now apply new_scope_tinv].
+  - intros s d sh t _ T. apply scope_enter_tinv; [cbn; lia|now apply new_scope_tinv].
   - intros s c t Hc. now apply scope_enter_tinv.
-  - intros s g t T. apply scope_enter_tinv; [apply (gi_gscope _ (proj1 T))|exact T].
-  - intros s t T. apply scope_enter_tinv; [apply (gi_hscope _ (proj1 T))|exact T].
+  - intros s g t _ T. apply scope_enter_tinv; [apply (gi_gscope _ (proj1 T))|exact T].
+  - intros s t _ T. apply scope_enter_tinv; [apply (gi_hscope _ (proj1 T))|exact T].
   - intros s c t exc. apply scope_exit_tinv.
   - intros s c. apply scope_cancel_tinv.
   - intros s c d _. apply set_deadline_tinv.
@@ -956,7 +957,7 @@ Proof.
   - intros s t f. apply sleep0_tinv.
   - intros s t f tm E. apply sleep_wake_tinv. exists t, f. exact E.
   - intros s f tm. apply pop_sleepdone_tinv.
-  - intros s c tm Hin. now apply timeout_run_tinv.
+  - intros s c tm _ Hin. now apply timeout_run_tinv.
   - intros s. apply add_root_tinv.
   - intros s dt [].
 Qed.
@@ -967,7 +968,7 @@ Definition op_wf (s : st) (o : op) : Prop :=
 
 Theorem step_tinv s o : op_wf s o -> TInv s -> TInv (fst (step s o)).
 Proof.
-  intros Hwf. destruct o; try (apply (walk_step tinv_walk); exact Hwf || exact I).
+  intros Hwf. destruct o; try (apply (walk_step tinv_walk), op_ok_always; exact Hwf || exact I).
   unfold step. cbn [actor]. destruct (Z.ltb dt 0) eqn:E; cbn [fst]; [auto|]. apply tick_tinv. lia.
 Qed.
 
